@@ -42,6 +42,7 @@ type panVsysT struct {
 	extra  string // extra XML inside vsys
 	svcIn  map[string]string // service name -> extra XML inside its <tcp>/<udp> element
 	svcOut map[string]string // service name -> extra XML beside <protocol>
+	svcDef map[string]string // service name -> "proto port" when the name does not say it
 }
 
 func defaultGroups() map[string][]string {
@@ -181,6 +182,9 @@ func panVsysXML(v panVsysT) string {
 		b.WriteString("<service>")
 		for _, n := range sortedKeys(usedSvc) {
 			proto, port, _ := strings.Cut(n, " ")
+			if d, ok := v.svcDef[n]; ok {
+				proto, port, _ = strings.Cut(d, " ")
+			}
 			fmt.Fprintf(&b, `<entry name="%s"><protocol><%s><port>%s</port>%s</%s></protocol>%s</entry>`, n, proto, port, v.svcIn[n], proto, v.svcOut[n])
 		}
 		b.WriteString("</service>")
@@ -361,6 +365,10 @@ func panSvcSpace() *panSpace {
 		{[]string{"sg1"}, map[string][]string{"sg1": {"tcp 80"}}},
 		{[]string{"any"}, nil},
 		{[]string{"application-default"}, nil},
+		// the group's members carry other names for the same definitions
+		{[]string{"sg1"}, map[string][]string{"sg1": {"TCP-80-HTTP", "udp 53"}}},
+		{[]string{"sg1"}, map[string][]string{"sg1": {"TCP-80-HTTP", "UDP-53-DNS"}}},
+		{[]string{"TCP-80-HTTP"}, nil},
 	}
 	// definition variants of the service 'tcp 80' itself
 	defs := []struct{ in, out string }{{"", ""}, {"<source-port>1024-65535</source-port>", ""}, {"<override><yes><timeout>30</timeout></yes></override>", ""},
@@ -373,6 +381,7 @@ func panSvcSpace() *panSpace {
 		mk := func(v sv, d struct{ in, out string }) string {
 			r := panRuleT{"allow", "z1", "z2", []string{"a1"}, []string{"a3"}, v.srv, ""}
 			return panConfig(panVsysT{name: "vsys1", rules: []panRuleT{r}, sgroup: v.sgroup,
+				svcDef: map[string]string{"TCP-80-HTTP": "tcp 80", "UDP-53-DNS": "udp 53"},
 				svcIn: map[string]string{"tcp 80": d.in}, svcOut: map[string]string{"tcp 80": d.out}})
 		}
 		return mk(vars[i/n], da), core.Files{Main: mk(vars[i%n], db)}
